@@ -26,6 +26,7 @@ RULE = ("seeded GeoBoxes (shapes 1..64 incl. 1xN, Nx1; 7 affine families; transl
 ASSUMPTIONS = ["numpy 3x3 matrix algebra as reference for the affine mapping", "tolerance 1e-9*(|coord|+|pixel|*(nx+ny)) in world units, 1e-6 px + float resolution for inverses",
                "zoom_to(int): pixel positions and coverage judged, the pixel count only logged"]
 SHARDS = {"quick": 1, "thorough": 8}
+SUITE_UNDER_MONITOR = True
 
 _mon: Monitor = None  # type: ignore
 PROBE = np.array([[0, 0], [1, 0], [0, 1], [3.5, 2.25], [-2, 7], [10.5, 0.5]], dtype="float64")
@@ -263,6 +264,9 @@ def post_getitem(args, kw, res, exc, snap):
     if any(isinstance(s, slice) and s.step not in (None, 1) for s in roi):
         return _mon.check(isinstance(exc, NotImplementedError), "GeoBox.__getitem__", {"roi": repr(roi), "exc": exc}, key="getitem-stepped", cls="stepped")
     ny, nx = g.shape
+    if any(isinstance(sl, slice) and any(v is not None and not (-n <= v <= n) for v in (sl.start, sl.stop)) for sl, n in zip(roi, (ny, nx))):
+        # slices reaching beyond the image: the repository's own tests use gbox[0:ny+1, 0:nx+2] to *expand*; the statement does not say
+        return _mon.skip("GeoBox.__getitem__", "slice bounds beyond the image")
     iy, ix = _np_index(ny, roi[0]), _np_index(nx, roi[1])
     if iy is None or ix is None:
         return _mon.skip("GeoBox.__getitem__", "index out of range")
